@@ -502,8 +502,9 @@ class ExcelCompiler:
     def _reset(self, cell):
         # a range that is only used as a reference (ie: range intersection) is
         # not evaluated again with its dependants, so always look behind ranges
+        # and behind the cells which stand in for unbounded ranges
         if cell.needs_calc and not (
-                isinstance(cell, _CellRange) or cell.empty_result):
+                cell.address.is_range or cell.empty_result):
             return
         self.log.info(f"Resetting {cell.address}")
         cell.value = None
@@ -512,7 +513,7 @@ class ExcelCompiler:
         if cell in self.dep_graph:
             for child_cell in self.dep_graph.successors(cell):
                 if (child_cell.value is not None or child_cell.empty_result or
-                        isinstance(child_cell, _CellRange)):
+                        child_cell.address.is_range):
                     self._reset(child_cell)
 
     def value_tree_str(self, address, indent=0):
